@@ -524,3 +524,25 @@ Proof.
   { intros n' H. apply (Permutation_in _ (Permutation_sym Hpn)) in H. apply in_map_iff in H. destruct H as [n [<- Hn]]. eauto. }
   apply (greedy_sim dfs nodes nodes' phi Hinj Hf Hb). apply sorted_lists_related; auto.
 Qed.
+
+(* converse of monotone_relabel_invariant: every row of the relabelled output is the image of a row *)
+Lemma monotone_relabel_invariant_conv : forall le, rank_order le -> forall phi,
+  (forall a b, a < b -> phi a < phi b) -> (forall a b, le (fe phi a) (fe phi b) = le a b) ->
+  forall dfs thr nodes nodes' E E' (chl chr chl' chr' : chooser) fuel fuel' out out',
+  NoDup (map n_id nodes) -> NoDup (map n_id nodes') ->
+  Permutation (map (fn phi) nodes) nodes' -> eperm_flip (map (fe phi) E) E' ->
+  strict_rank le E -> strict_rank le E' ->
+  rank1_ok_for le chl -> rank1_ok_for le chr -> rank1_ok_for le chl' -> rank1_ok_for le chr' ->
+  oto_loop dfs (df_neighbours thr E) chl chr fuel 1 (df_representatives nodes) = Some out ->
+  oto_loop dfs (df_neighbours thr E') chl' chr' fuel' 1 (df_representatives nodes') = Some out' ->
+  forall v' c' s, In (v', c', s) out' -> exists v c, v' = phi v /\ c' = phi c /\ In (v, c, s) out.
+Proof.
+  intros le Hord phi Hm Hc dfs thr nodes nodes' E E' chl chr chl' chr' fuel fuel' out out' Hnd Hnd' Hpn Hpe Hs Hs' Hl Hr Hl' Hr' Hrun Hrun' v' c' s Hin.
+  assert (Hn' : In (v', s) nodes').
+  { apply (out_recs' dfs thr nodes' E' Hnd' chl' chr' fuel' out' Hrun'). eauto. }
+  apply (Permutation_in _ (Permutation_sym Hpn)) in Hn'. apply in_map_iff in Hn'. destruct Hn' as [[v s0] [Heq Hn]].
+  unfold fn, n_id, n_sds in Heq. cbn [fst snd] in Heq. inversion Heq; subst v' s0.
+  destruct (out_bwd le Hord phi Hm Hc dfs thr nodes nodes' E E' Hnd Hnd' Hpn Hpe Hs Hs' chl chr chl' chr' Hl Hr Hl' Hr' fuel fuel' out out' Hrun Hrun' v c' s Hin Hn)
+    as [c0 [-> Hc0]].
+  exists v, c0. auto.
+Qed.
